@@ -87,6 +87,9 @@ sut_inst_t sut_tz_utc(sut_inst_t local, int zh);
 sut_inst_t sut_tz_loc(sut_inst_t utc, int zh);
 int sut_tz_offs(sut_inst_t utc, int zh);       /* seconds */
 
+/* C05: serialise after K pops and re-read, see sut_strm.c */
+int sut_roundtrip(const char *ics, size_t len, int k, int nocc, sut_buf_t *out);
+
 /* C03: mux session, see sut_strm.c */
 int sut_mux_session(const char *ics, size_t len, const char *ops, int cap, int mode, sut_buf_t *out);
 
